@@ -435,6 +435,33 @@ fn schedule(case: &Case) -> SchedOutcome {
     SchedOutcome { steps, stuck }
 }
 
+struct OnDrop<F: FnMut()>(F);
+impl<F: FnMut()> Drop for OnDrop<F> {
+    fn drop(&mut self) {
+        (self.0)()
+    }
+}
+struct OuterUnwind;
+
+/// Runs `f` — when `yes` — inside a destructor while the thread is unwinding from an unrelated panic
+/// (`std::thread::panicking()` is true for the whole call); `f` catches its own panics.
+fn while_unwinding<R>(yes: bool, f: impl FnOnce() -> R) -> R {
+    if !yes {
+        return f();
+    }
+    let mut out = None;
+    let mut f = Some(f);
+    let _ = catch_unwind(AssertUnwindSafe(|| {
+        let _g = OnDrop(|| {
+            if let Some(f) = f.take() {
+                out = Some(f());
+            }
+        });
+        std::panic::resume_unwind(Box::new(OuterUnwind));
+    }));
+    out.expect("the destructor ran")
+}
+
 // ---------------------------------------------------------------------------------------------
 // one case, generic over the iterator type
 
@@ -478,6 +505,7 @@ where
                 if ops.is_empty() {
                     continue;
                 }
+                let in_panic = case.inpanic.contains(&t);
                 let h = s.spawn(move || {
                     rt::thread_enter(t);
                     let mut buf = None;
@@ -492,7 +520,7 @@ where
                             break;
                         }
                         tlog!("call {}", op.text);
-                        let res = catch_unwind(AssertUnwindSafe(|| {
+                        let res = while_unwinding(in_panic, || catch_unwind(AssertUnwindSafe(|| {
                             set_track(true);
                             let line = match &op.kind {
                                 OpKind::BufNew(n) => {
@@ -521,7 +549,7 @@ where
                             };
                             set_track(false);
                             line
-                        }));
+                        })));
                         set_track(false);
                         match res {
                             Ok(line) => tlog!("{}", line),
